@@ -563,6 +563,17 @@ def run(prop: str):
     spec = json.load(open(spath))
     tmpl = open(tpath).read()
     infos = []
+    if any(it.get("kind") == "block" for it in spec["items"]):
+        # the statement-level translator first translates a handful of functions whose meaning is known
+        # (tools/test_extract.py): a broken translator must not validate (or break) a tie
+        try:
+            import test_extract
+
+            failed = test_extract.run_tests()
+        except Exception as e:  # noqa
+            failed = ["self-test crashed: " + repr(e)]
+        if failed:
+            return {"status": "unavailable", "reason": "translator self-test failed: " + "; ".join(failed)[:400], "extracted": []}
     try:
         for item in spec["items"]:
             text, info = extract_item(item)
